@@ -283,3 +283,44 @@ def firstRejected (blockLen : Nat) : WState → List Key → Nat → Option Nat
 def writerAccepts (blockLen : Nat) (ks : List Key) : Bool := (firstRejected blockLen {} ks 0).isNone
 
 end TantivyModel.SSTable
+
+namespace TantivyModel.SSTable
+
+/-- mirrors: SSTableIndex::get_and_locate_with_ord + the `current_block_end_bound` computation of
+Dictionary::sorted_ords_to_term_cb: the block holding `ord` and the first ordinal of the next
+block (`u64::MAX` if there is none) -/
+def Dict.openForOrd {V} (d : Dict V) (ord : Nat) : Block V × Nat :=
+  let i := d.locateOrd ord
+  ((d.blockAt i).getD ⟨[], 0, []⟩,
+   match d.blockAt (i + 1) with | some b => b.firstOrd | none => U64_MAX)
+
+/-- mirrors: the loop of Dictionary::sorted_ords_to_term_cb after the first ordinal: the same
+ordinal again re-emits the current key; an ordinal at or past the end bound re-opens a block;
+a block that runs out ends the call with `false` -/
+def Dict.sortedOrdsGo {V} (d : Dict V) : Block V → Nat → Nat → Key → List Nat → List Key × Bool
+  | _, _, _, _, [] => ([], true)
+  | b, endBound, prevOrd, cur, o :: rest =>
+    if o = prevOrd then
+      let r := d.sortedOrdsGo b endBound prevOrd cur rest
+      (cur :: r.1, r.2)
+    else
+      let be := if o ≥ endBound then d.openForOrd o else (b, endBound)
+      match be.1.entries[o - be.1.firstOrd]? with
+      | none => ([], false)
+      | some e =>
+        let r := d.sortedOrdsGo be.1 be.2 o e.1 rest
+        (e.1 :: r.1, r.2)
+
+/-- mirrors: Dictionary::sorted_ords_to_term_cb (requires `ords` sorted): the keys passed to the
+callback and the returned flag -/
+def Dict.sortedOrdsToTerm {V} (d : Dict V) : List Nat → List Key × Bool
+  | [] => ([], true)
+  | o :: rest =>
+    let be := d.openForOrd o
+    match be.1.entries[o - be.1.firstOrd]? with
+    | none => ([], false)
+    | some e =>
+      let r := d.sortedOrdsGo be.1 be.2 o e.1 rest
+      (e.1 :: r.1, r.2)
+
+end TantivyModel.SSTable
